@@ -24,6 +24,37 @@ def _c31_classes(i, o):
     return cls
 
 
+def _c32_classes(i, o):
+    kind = i[0]
+    cls = ['kind=%s' % {0: 'cache', 1: 'request', 2: 'response'}.get(kind, '?')]
+    if kind == 0:
+        cls.append('capacity=%d' % i[1])
+        cls.append('db_mode=%s' % ('all-or-nothing' if i[3] == 0 else 'partial'))
+        if any(op[0] == 1 for op in i[4]):
+            cls.append('cache-poisoned')
+        if isinstance(o, list):
+            for op, ob in zip(i[4], o):
+                if op[0] == 0 and isinstance(ob, list) and len(ob) == 4:
+                    cls.append('answer=%s' % ('none' if ob[2] == [0] else 'some'))
+                    cls.append('db_calls=%d' % len(ob[3]))
+                    if ob[3] and ob[3][0][0] > op[2]:
+                        cls.append('partly-from-cache')
+                    if len(ob[1]) < len(ob[0]) + (ob[3][0][1] - ob[3][0][0] if ob[3] and ob[2] != [0] else 0):
+                        cls.append('eviction-observed')
+    elif kind == 1:
+        cls.append('request=%d' % i[1][0])
+        if isinstance(o, list) and len(o) == 4:
+            cls.append('fits-cap=%d' % o[3])
+            cls.append('bytes=%d' % min(len(o[0]), 12))
+    else:
+        cls.append('variant=%d' % i[1])
+        cls.append('protocol=%d' % i[5])
+        cls.append('payload=%s' % ('ok' if i[2] == 1 else 'err%d' % i[4]))
+        if isinstance(o, list) and len(o) == 2:
+            cls.append('read=%s' % ('error' if o[1] == [0] else 'message'))
+    return cls
+
+
 PROPS = {
     'C31': dict(
         id='C31', cluster='P2P', crate='h-p2p', tag=31,
@@ -43,4 +74,28 @@ PROPS = {
                      'service hands to the tracker); libp2p itself is not exercised',
                      'flag <=> free slot is proved for limits >= 1 only; for the limit 0 the flag is never cleared (known finding)'],
         level='proof'),
+    'C32': dict(
+        id='C32', cluster='P2P', crate='h-p2p', tag=32,
+        n={'quick': 1500, 'thorough': 30000},
+        theorems=['served_eq_db', 'served_one_and_consistency_preserved', 'oversize_refused_partial', 'request_roundtrip',
+                  'request_read_within_cap', 'response_roundtrip', 'response_v1_conversion'],
+        classify=_c32_classes,
+        rule='three kinds of case. cache: bounded-exhaustive (every cached subset of 4 heights x every range inside 0..=4 x chain '
+             'length 0..=4, each range asked twice) plus random histories of 1..8 (16) requests / cache loads / poisoned entries '
+             'over 12 heights and both tables, capacities 1, 2, 3, 5, 64 (eviction), database all-or-nothing or partial. request: '
+             'every varint boundary (2^7, 2^14, 2^21, 2^28, u32::MAX) in both range requests with size caps around the encoded '
+             'length, plus random requests incl. 0..5 / 127..129 transaction ids with edge bytes. response: every variant x '
+             'Ok(0..2 items) / every error code incl. Unknown x both protocols x small and large size caps. non-trivial = distinct '
+             'input with a non-empty observation',
+        assumptions=['quick_cache eviction is an oracle: the cache content is read (peek) before and after every op and the model '
+                     'only requires it to be a subset of what it predicts',
+                     'items are identified by a value code (DA height field of a header, number of transactions); the scripted '
+                     'database holds heights below chain_len',
+                     'the model decoder accepts some byte strings postcard rejects (varints above the integer width); only '
+                     'decode(encode m), strict-prefix rejection and the size cap are compared',
+                     'response payloads are not modelled at byte level: their encoded length is taken from the observation and the '
+                     'payload codec is a Section variable with a round-trip hypothesis (response codec: partial)',
+                     'handle_db_request / handle_full_transactions_request need the running libp2p Task and are NOT exercised: '
+                     'oversize_refused_partial is a statement about the two comparisons only'],
+        level='proof (partial)'),
 }
